@@ -82,9 +82,30 @@ pub enum Call {
     RegisterExt { ns: String, url: String },
     CoordMeta(Option<String>),
     Creation(Option<DT>),
-    Blob { data: Bytes, pipe: Chunk },
+    /// `fail_after`: the source hands out that many bytes (at most the data), then its next
+    /// read reports an error: the call must fail, and the program goes on with the same writer
+    Blob {
+        data: Bytes,
+        pipe: Chunk,
+        #[serde(default)]
+        fail_after: Option<usize>,
+    },
     Pc { guid: String, proto: Vec<Rec>, steps: Vec<PcStep>, end: SubEnd },
     Img { guid: String, steps: Vec<ImgStep>, end: SubEnd },
+}
+
+/// A blob source whose data ends in an error instead of end-of-file.
+pub struct FailingSrc {
+    pub inner: PipeSrc,
+}
+
+impl std::io::Read for FailingSrc {
+    fn read(&mut self, buf: &mut [u8]) -> std::io::Result<usize> {
+        match self.inner.read(buf) {
+            Ok(0) if !buf.is_empty() => Err(std::io::Error::new(std::io::ErrorKind::Other, "simulated source failure")),
+            other => other,
+        }
+    }
 }
 
 #[derive(Clone, Debug, PartialEq, Serialize, Deserialize)]
@@ -94,6 +115,10 @@ pub enum XmlScript {
     Fail,
     /// inserts a comment and an element in a foreign namespace before the end of the root
     Edit,
+    /// appends a comment behind the end tag of the root (the document only grows at its end)
+    Append,
+    /// returns a shorter document: white space at the very end is removed
+    Shorten,
 }
 
 #[derive(Clone, Debug, PartialEq, Serialize, Deserialize)]
@@ -104,6 +129,19 @@ pub enum End {
     DropOnly,
 }
 
+/// What the caller does when a call fails that should have succeeded.
+#[derive(Clone, Copy, Debug, PartialEq, Eq, Default, Serialize, Deserialize)]
+pub enum OnError {
+    /// the `?` idiom: stop and drop everything
+    #[default]
+    Stop,
+    /// give up the point cloud or image the failed call belongs to, go on with the next top-level
+    /// call and finalize at the end
+    Continue,
+    /// like Stop, but a failed top-level finalize is called a second time
+    RetryFinalize,
+}
+
 #[derive(Clone, Debug, PartialEq, Serialize, Deserialize)]
 pub struct Program {
     pub guid: String,
@@ -111,6 +149,8 @@ pub struct Program {
     pub end: End,
     /// cap for points per data packet (hook); None = the library's own capacity
     pub knob: Option<usize>,
+    #[serde(default)]
+    pub on_error: OnError,
 }
 
 #[derive(Clone, Copy, Debug, PartialEq, Eq, Serialize, Deserialize)]
@@ -158,6 +198,8 @@ pub struct Executed {
     pub xml_out: Option<String>,
     /// device had unflushed writes at the moment the top-level finalize returned
     pub dirty_after_finalize: bool,
+    /// first call that failed although the model expected success (whatever the caller did then)
+    pub first_failure: Option<usize>,
 }
 
 pub fn valid_ext_name(name: &str) -> bool {
@@ -315,7 +357,9 @@ pub fn classify_point(values: &[Val], proto: &[Rec]) -> Expect {
 pub fn classify_register(ns: &str, registered: &[(String, String)]) -> Expect {
     if !valid_ext_name(ns) || registered.iter().any(|(n, _)| n == ns) {
         Expect::MustReject
-    } else if non_ncname_start(ns) {
+    } else if non_ncname_start(ns) || registered.iter().any(|(n, _)| n.eq_ignore_ascii_case(ns)) {
+        // a second prefix that differs from a registered one only in letter case: distinct for
+        // XML, but nothing says a writer has to take it
         Expect::Unspec
     } else {
         Expect::MustAccept
@@ -415,6 +459,9 @@ pub fn exec_program(prog: &Program, ctx: &Ctx, disk: &SimDisk) -> Executed {
     expected.file.guid = prog.guid.clone();
     let mut blob_descs = Vec::new();
     let mut stopped_at: Option<usize> = None;
+    // OnError::Continue: the first call that failed, and whether the item in progress is given up
+    let mut first_failure: Option<usize> = None;
+    let mut give_up_item = false;
     let mut completed = false;
     let mut finalize_op_from = None;
     let mut xml_out: Option<String> = None;
@@ -440,8 +487,15 @@ pub fn exec_program(prog: &Program, ctx: &Ctx, disk: &SimDisk) -> Executed {
                 err,
                 expect: $expect,
             });
-            if !ok && $expect == Expect::MustAccept && stopped_at.is_none() {
-                stopped_at = Some(calls.len() - 1);
+            if !ok && $expect == Expect::MustAccept {
+                if first_failure.is_none() {
+                    first_failure = Some(calls.len() - 1);
+                }
+                if prog.on_error == OnError::Continue {
+                    give_up_item = true;
+                } else if stopped_at.is_none() {
+                    stopped_at = Some(calls.len() - 1);
+                }
             }
             ok
         }};
@@ -456,6 +510,7 @@ pub fn exec_program(prog: &Program, ctx: &Ctx, disk: &SimDisk) -> Executed {
             if stopped_at.is_some() {
                 break;
             }
+            give_up_item = false;
             match call {
                 Call::RegisterExt { ns, url } => {
                     let exp = classify_register(ns, &registered);
@@ -474,7 +529,16 @@ pub fn exec_program(prog: &Program, ctx: &Ctx, disk: &SimDisk) -> Executed {
                     w.set_creation(v.as_ref().map(dtm_to_e57));
                     expected.file.creation = v.clone();
                 }
-                Call::Blob { data, pipe } => {
+                Call::Blob { data, pipe, fail_after: Some(k) } => {
+                    let bytes = data.make();
+                    let k = (*k).min(bytes.len());
+                    let mut src = FailingSrc { inner: PipeSrc::new(ctx, PIPE_DEV_BASE + pipe_no, bytes[..k].to_vec(), pipe) };
+                    pipe_no = pipe_no.wrapping_add(1) % 64;
+                    let from = opno(ctx);
+                    let r = w.add_blob(&mut src);
+                    record!(format!("add_blob({} bytes, source fails after {k})", bytes.len()), ci, Expect::MustReject, from, r);
+                }
+                Call::Blob { data, pipe, fail_after: None } => {
                     let bytes = data.make();
                     let mut src = PipeSrc::new(ctx, PIPE_DEV_BASE + pipe_no, bytes.clone(), pipe);
                     pipe_no = pipe_no.wrapping_add(1) % 64;
@@ -506,7 +570,7 @@ pub fn exec_program(prog: &Program, ctx: &Ctx, disk: &SimDisk) -> Executed {
                     let mut points: Vec<Point> = Vec::new();
                     let mut n_point_calls = 0usize;
                     for step in steps {
-                        if stopped_at.is_some() {
+                        if stopped_at.is_some() || give_up_item {
                             break;
                         }
                         match step {
@@ -564,6 +628,11 @@ pub fn exec_program(prog: &Program, ctx: &Ctx, disk: &SimDisk) -> Executed {
                     if stopped_at.is_some() {
                         break 'calls;
                     }
+                    if give_up_item {
+                        // the sub-writer is dropped without finalize
+                        give_up_item = false;
+                        continue 'calls;
+                    }
                     if *end == SubEnd::Finalize {
                         let from = opno(ctx);
                         let r = pw.finalize();
@@ -602,7 +671,7 @@ pub fn exec_program(prog: &Program, ctx: &Ctx, disk: &SimDisk) -> Executed {
                     let mut visual: Option<RepRead> = None;
                     let mut projection: Option<RepRead> = None;
                     for step in steps {
-                        if stopped_at.is_some() {
+                        if stopped_at.is_some() || give_up_item {
                             break;
                         }
                         match step {
@@ -708,6 +777,11 @@ pub fn exec_program(prog: &Program, ctx: &Ctx, disk: &SimDisk) -> Executed {
                     if stopped_at.is_some() {
                         break 'calls;
                     }
+                    if give_up_item {
+                        // the sub-writer is dropped without finalize
+                        give_up_item = false;
+                        continue 'calls;
+                    }
                     if *end == SubEnd::Finalize {
                         let exp = if visual.is_none() && projection.is_none() {
                             Expect::MustReject
@@ -737,6 +811,11 @@ pub fn exec_program(prog: &Program, ctx: &Ctx, disk: &SimDisk) -> Executed {
                     finalize_op_from = Some(from);
                     let r = w.finalize();
                     completed = record!("finalize".to_string(), usize::MAX, exp, from, r);
+                    if !completed && exp == Expect::MustAccept && prog.on_error == OnError::RetryFinalize {
+                        let from = opno(ctx);
+                        let r = w.finalize();
+                        completed = record!("finalize (second call)".to_string(), usize::MAX, Expect::Unspec, from, r);
+                    }
                     dirty_after_finalize = disk.dirty();
                 }
                 End::FinalizeXml(script) => {
@@ -759,6 +838,22 @@ pub fn exec_program(prog: &Program, ctx: &Ctx, disk: &SimDisk) -> Executed {
                         }),
                         XmlScript::Edit => {
                             let e = edit_xml(&xml);
+                            *captured.borrow_mut() = Some(e.clone());
+                            Ok(e)
+                        }
+                        XmlScript::Append => {
+                            let e = format!("{xml}<!-- appended by the caller's transformer -->\n");
+                            *captured.borrow_mut() = Some(e.clone());
+                            Ok(e)
+                        }
+                        XmlScript::Shorten => {
+                            // the white space behind the root and the line break in front of its
+                            // end tag (never inside character data)
+                            let mut e = xml.trim_end().to_string();
+                            if e.ends_with("\n</e57Root>") {
+                                let cut = e.len() - "\n</e57Root>".len();
+                                e.replace_range(cut..cut + 1, "");
+                            }
                             *captured.borrow_mut() = Some(e.clone());
                             Ok(e)
                         }
@@ -785,6 +880,7 @@ pub fn exec_program(prog: &Program, ctx: &Ctx, disk: &SimDisk) -> Executed {
         blob_descs,
         xml_out,
         dirty_after_finalize,
+        first_failure,
     }
 }
 
@@ -804,6 +900,7 @@ pub fn scene_of(prog: &Program) -> Expected {
             }
             Call::CoordMeta(v) => e.file.coord_meta = v.clone(),
             Call::Creation(v) => e.file.creation = v.clone(),
+            Call::Blob { fail_after: Some(_), .. } => {}
             Call::Blob { data, .. } => e.blobs.push(data.make()),
             Call::Pc { guid, proto, steps, end } => {
                 if classify_proto(proto, &registered) == Expect::MustReject || *end != SubEnd::Finalize {
